@@ -233,6 +233,23 @@ func c18Endings(r *Run) {
 		}
 		stream = append(stream, peer.Encode(MessageFrames(spec, comp)...)...)
 	}
+	// insideMsg: the peer's normal / going-away Close frame arrives between the
+	// fragments of a message (or in front of its empty final frame). The byte
+	// stream then ends inside a message: that is not a clean end, Read must not
+	// report io.EOF (the bytes of the unfinished message that were received may
+	// be delivered before the error).
+	insideMsg := ending <= 1 && t.Pct(30)
+	var tailWant []byte
+	if insideMsg {
+		tailWant = Payload{Kind: 3, Len: []int{0, 7, 300}[t.Draw(3)], Seed: 77}.Bytes()
+		fs := []wsref.Frame{{Fin: false, Opcode: typ, Payload: tailWant}}
+		if t.Pct(50) && len(tailWant) > 2 {
+			h := len(tailWant) / 2
+			fs = []wsref.Frame{{Fin: false, Opcode: typ, Payload: tailWant[:h]}, {Fin: false, Opcode: wsref.OpCont, Payload: tailWant[h:]}}
+		}
+		stream = append(stream, peer.Encode(fs...)...)
+		r.S.Count("probe.close-frame-inside-a-message")
+	}
 	switch ending {
 	case 0, 1, 2:
 		pl := wsref.ClosePayload(code, "end")
@@ -294,6 +311,20 @@ func c18Endings(r *Run) {
 	if r.S.Aborted != "" {
 		if r.S.Aborted == "sim-time" {
 			r.Violate("stuck", sig, "reader did not finish: parked=%v", r.S.ParkedIDs())
+		}
+		return
+	}
+	if insideMsg {
+		sig += ",inside-message"
+		full := append(append([]byte{}, want...), tailWant...)
+		if !bytes.HasPrefix(got, want) || !bytes.HasPrefix(full, got) {
+			r.Violate("stream-differs", sig, "bytes read before the ending differ (read %d, complete messages %d, plus %d of the unfinished one)", len(got), len(want), len(tailWant))
+		}
+		if len(errs) > 0 && errs[0] == io.EOF {
+			r.Violate("eof-inside-message", sig, "the peer's Close frame (%d) arrived between the fragments of a message and Read reported io.EOF: the stream ended cleanly although its last message was cut off", code)
+		}
+		if len(errs) == 0 {
+			r.Violate("no-error", sig, "Read never failed")
 		}
 		return
 	}
